@@ -45,8 +45,9 @@ def sqlEq : PV → PV → Option Bool
   | _, .null => none
   | a, b => some (decide (a = b))
 
-/-- `DataValue` equality, which is what hash tables of the executors use: NULL = NULL. -/
-def keyEq (a b : PV) : Bool := decide (a = b)
+/-- Key equality of the hash / merge join executors: `DataValue` equality of two non-NULL keys
+(since `fix:` 9513be7 a row whose key is NULL never matches; before, NULL matched NULL). -/
+def keyEq (a b : PV) : Bool := decide (a ≠ .null ∧ a = b)
 
 def bTrue : BExpr := fun _ => some true
 def bFalse : BExpr := fun _ => some false
@@ -177,8 +178,8 @@ def join (t : JoinType) (on : BExpr) (L R : Rel) : Rel :=
     owned := fun x => L.owned x || (if t = .semi ∨ t = .anti then false else R.owned x)
     rows := joinRows t on L R }
 
-/-- Equality of two key lists the way the hash-join executor decides it: `DataValue` equality
-component-wise (NULL matches NULL). -/
+/-- Equality of two key lists the way the hash-join executor decides it: component-wise
+`DataValue` equality of non-NULL keys. -/
 def keysEq : List VExpr → List VExpr → BExpr
   | [], [] => bTrue
   | l :: ls, r :: rs => fun ρ => some (keyEq (l ρ) (r ρ) && (keysEq ls rs ρ == some true))
